@@ -1,4 +1,5 @@
 import GnarkVerif.Proofs.Poly
+import GnarkVerif.Proofs.PolyDerived
 import Mathlib.Algebra.Field.ZMod
 import Mathlib.Tactic.IntervalCases
 /-
@@ -18,7 +19,7 @@ The model follows the property where the Go code does not; the literal Go behavi
 `evalLagrangeGo` and characterised by C20_go_evaluate_canonical / C20_go_lagrange_domain_point (findings).
 -/
 namespace GV.Poly
-open GV.FFT Finset
+open GV.FFT GV.ForkJoin Finset
 set_option linter.unusedSectionVars false
 
 /-! ### non-vacuity material: `ZMod 5`, `n = 4`, `ω = 2`, `g = 2` (the C10 example domain) -/
@@ -222,6 +223,48 @@ example : evalLagrangeGo (fun x => x^3) (List.map (fun x => x^3)) (2 : ZMod 5) [
 example : evalLagrange (fun x => x^3) (List.map (fun x => x^3)) (2 : ZMod 5) [1, 2, 3, 4] 4 = 3 := by decide
 example : evalLagrange (fun x => x^3) (List.map (fun x => x^3)) (2 : ZMod 5) [0, 4, 3, 2] 0 = 1 := by decide
 
+
+/-! ### the derived constructions split their loops with `parallel.Execute`: every partition gives the same result -/
+
+/-- **a chunked element-wise loop is the loop**: for EVERY list of ranges that tiles `[0, n)` — in particular the ranges
+    `parallel.Execute` hands out for every task count (C18_execute_tiles) — running `out[i] = f i` range by range
+    produces `[f 0, …, f (n-1)]`. This is the shape of the loops of `iop.Evaluate`, `DivideByXMinusOne`, the factor loop
+    of `BuildRatioCopyConstraint` and the cosets of `getSupportIdentityPermutation`. -/
+theorem C20_chunked_map {α : Type} (f : Nat → α) (ranges : List (Nat × Nat)) (n : Nat) (hT : Tiles ranges n) :
+    ranges.flatMap (fun r => (rangeIdx r).map f) = (List.range n).map f :=
+  chunked_map f ranges n hT
+
+/-- **the chunked batch inversion equals the element-wise division, for every partition**: whatever list of ranges
+    tiles the index range, `tInv := BatchInvert(t[start:end]); coeffs[i] *= tInv[i-start]` chunk by chunk gives
+    `coeffs[i] · t[i]⁻¹` at EVERY index (`BatchInvert = map inv`, C01_batchInv) -/
+theorem C20_chunked_division (inv : R → R) (ranges : List (Nat × Nat)) (cs ts : List R)
+    (hT : Tiles ranges cs.length) (hlen : ts.length = cs.length) :
+    chunkedDiv (List.map inv) ranges cs ts = List.zipWith (fun c t => c * inv t) cs ts :=
+  chunkedDiv_eq inv ranges cs ts hT hlen
+
+/-- **the grand product of `BuildRatioCopyConstraint`** (running products, entry 0 left alone, entries `1 … n-1`
+    divided chunk by chunk) is the grand product of the definition, for every partition of `[0, n-1)` into chunks -/
+theorem C20_grandProduct_chunked (inv : R → R) (h1 : inv 1 = 1) (ranges : List (Nat × Nat)) (ns ds : List R)
+    (hT : Tiles ranges ns.length) (hlen : ds.length = ns.length) :
+    grandProductChunked (List.map inv) ranges ns ds = grandProduct inv ns ds :=
+  grandProductChunked_eq inv h1 ranges ns ds hT hlen
+
+/-- … in particular for the ranges of `parallel.Execute(n-1, work, min(NumCPU, n/58))` on a machine with ANY number
+    of CPUs, for every size `n = |ns| + 1` -/
+theorem C20_ratioCopy_all_task_counts (inv : R → R) (h1 : inv 1 = 1) (ncpu : Nat) (ns ds : List R)
+    (hlen : ds.length = ns.length) :
+    grandProductChunked (List.map inv) (executeRanges ns.length (min ncpu ((ns.length + 1) / 58))) ns ds
+      = grandProduct inv ns ds :=
+  grandProductChunked_eq inv h1 _ ns ds (executeRangesClamped_tiles _ _ (clampTasks_pos _).1) hlen
+
+example : executeRanges 127 (min 16 (128 / 58)) = [(0, 64), (64, 127)] := by decide
+example : grandProductChunked (List.map (fun x => x^3)) [(0, 1), (1, 2)] [(2 : ZMod 5), 3] [4, 1] = [1, 3, 4] := by
+  decide
+/-- a list of ranges that does NOT tile the index range (every chunk but the first loses its first index) is not
+    covered by the theorem, and indeed gives another vector -/
+example : grandProductChunked (List.map (fun x => x^3)) [(0, 1), (2, 2)] [(2 : ZMod 5), 3] [4, 1] ≠ [1, 3, 4] := by
+  decide
+
 end Ring
 
 section Fld
@@ -295,6 +338,54 @@ theorem C20_divideByXMinusOne (kers : List Nat) (d0 d1 : Domain F) (hd : Good d1
     xnMinusOneInv_getD d0 d1 hm hω i] at hv
   try simp only [if_true] at hv
   rw [hv, mul_assoc, inv_mul_cancel₀ (sub_ne_zero.mpr hne), mul_one]
+
+
+/-- **the table of `X^{n₀} − 1` on the coset of the big domain, for EVERY ratio `ρ = n₁/n₀ ≥ 1`** (`ρ = 1` included:
+    one entry, `(g^{n₀} − 1)⁻¹`): `ρ` entries, and entry `i mod ρ` is the inverse of `x_i^{n₀} − 1`, `x_i = g·ω₁ⁱ` -/
+theorem C20_xnMinusOne_table (d0 d1 : Domain F) (hm : d0.m ≤ d1.m) (hω : d1.gen ^ (2^d1.m) = 1) :
+    (xnMinusOneInv (fun x => x⁻¹) d0 d1).length = 2^(d1.m - d0.m) ∧
+    ∀ i, (xnMinusOneInv (fun x => x⁻¹) d0 d1).getD (i % 2^(d1.m - d0.m)) 0
+      = ((d1.g * d1.gen ^ i) ^ (2^d0.m) - 1)⁻¹ := by
+  refine ⟨xn_table_length _ d0 d1 hm, fun i => ?_⟩
+  have := xnMinusOneInv_getD d0 d1 hm hω i
+  rwa [Nat.pow_div hm (by decide)] at this
+
+/-- **when the division is defined**: `X^{n₀} − 1` has no zero on the coset `g·⟨ω₁⟩` of the big domain exactly when
+    `g^{n₁} ≠ 1` (what `divisionDefined` tests); otherwise it vanishes at one of the first `ρ` coset points. The default
+    shift generates the whole multiplicative group, so its order `q − 1` exceeds `n₁`: always defined. -/
+theorem C20_division_defined (d0 d1 : Domain F) (hd : Good d1) (hm : d0.m ≤ d1.m) (hω : d1.gen ^ (2^d1.m) = 1) :
+    (divisionDefined d1 = true ↔ ∀ i, (d1.g * d1.gen ^ i) ^ (2^d0.m) ≠ 1) ∧
+    (divisionDefined d1 = false → ∃ i, i < 2^(d1.m - d0.m) ∧ (d1.g * d1.gen ^ i) ^ (2^d0.m) = 1) := by
+  have hdef : divisionDefined d1 = true ↔ d1.g ^ (2^d1.m) ≠ 1 := by
+    unfold divisionDefined; rw [pw_eq]; exact decide_eq_true_iff
+  refine ⟨⟨fun h i => division_defined d0 d1 hm hω (hdef.1 h) i, fun h => hdef.2 (fun hg => ?_)⟩, fun h => ?_⟩
+  · obtain ⟨i, _, hi⟩ := division_undefined d0 d1 hd hm hg
+    exact h i hi
+  · apply division_undefined d0 d1 hd hm
+    by_contra hne
+    rw [hdef.2 hne] at h
+    exact Bool.noConfusion h
+
+/-- **ratio 1** (both domains the same): the quotient satisfies `q(x_i)·(gⁿ − 1) = a.GetCoeff(i)` at EVERY point of
+    the coset — the value of `xⁿ − 1` there is the constant `gⁿ − 1`, not `gⁿ` -/
+theorem C20_divide_ratio_one (kers : List Nat) (d : Domain F) (hd : Good d) (hω : d.gen ^ (2^d.m) = 1) (a : Poly F)
+    (hb : a.basis = .lagrangeCoset) (hl : a.coeffs.length = 2^d.m) (hs : a.size = 2^d.m)
+    (hg : d.g ^ (2^d.m) ≠ 1) :
+    ∃ r, divideByXMinusOne kers (fun x => x⁻¹) d d a = some r ∧
+      ∀ i, i < 2^d.m → evalAt r.coeffs (d.g * d.gen ^ i) * (d.g ^ (2^d.m) - 1) = getCoeff a i := by
+  obtain ⟨r, hr, _, _, h⟩ := C20_divideByXMinusOne kers d d hd (le_refl _) hω a hb hl hs
+  refine ⟨r, hr, fun i hi => ?_⟩
+  have e : (d.g * d.gen ^ i) ^ (2^d.m) = d.g ^ (2^d.m) := by
+    rw [mul_pow, ← pow_mul, mul_comm i, pow_mul, hω, one_pow, mul_one]
+  have := h i hi (by rw [e]; exact hg)
+  rwa [e] at this
+
+/-- the domain of size 2 of `ZMod 5` (`ω = -1`, shift 2): `g² = 4 ≠ 1`, the division is defined; on the C10 example
+    domain (size 4, where every unit is a 4th root of unity) it is not -/
+def exD2 : Domain (ZMod 5) := ⟨1, 3, 4, 4, 2, 3, true⟩
+example : divisionDefined exD2 = true ∧ divisionDefined (exD true) = false := by decide
+example : xnMinusOneInv (fun x => x^3) exD2 exD2 = [2] ∧ ((2 : ZMod 5)^2 - 1) * 2 = 1 := by decide
+example : xnMinusOneInv (fun x => x^3) (⟨0, 1, 1, 1, 2, 3, true⟩ : Domain (ZMod 5)) exD2 = [1, 3] := by decide
 
 /-- **grand product** of `BuildRatioShuffledVectors` / `BuildRatioCopyConstraint`:
     `Z[0] = 1`, `Z[i+1]·dᵢ = Z[i]·nᵢ` when no denominator factor vanishes -/
